@@ -380,6 +380,10 @@ class C13(runner.Check):
 					pos += 1
 				X = torch.from_numpy(numpy.concatenate(cols, axis=1))[None]
 				seqlets = pandas.DataFrame(spans, columns=["example_idx", "start", "end"])
+				if call.get("qdtype_seed") is not None:
+					# a frame that was sorted / filtered without reset_index
+					seqlets.index = [3 * (len(spans) - k) + 1 for k in range(len(spans))]
+					seqlets["attribution"] = 0.5
 				from tangermeme.annotate import annotate_seqlets
 				motifs = {"m%d" % i: torch.from_numpy(t) for i, t in enumerate(Ts)}
 				fn = lambda: annotate_seqlets(X, seqlets, motifs, n_nearest=nn,
